@@ -90,6 +90,13 @@ def gen(rng, tier):
             rng.setstate(st_)
             top = mk(['ref', 'p1'])
             defs = [['p1', pdef]]
+        elif rng.random() < 0.35 and not (mode == 'on' and future):
+            # directed (shared with C06): an arithmetic sub-specification used by several predicates, also as an operand of another
+            # arithmetic operator next to a variable of the other i/o kind
+            t1, top = common.gen_shared_arith(rng, vars_, mode)
+            defs = [['p1', t1]]
+            ast = sg.inline(defs, top)
+            io = dict((v, rng.choice(['input', 'output'])) for v in vars_)
     if rng.random() < 0.12:
         # an alias sub-specification: a bare constant ('q1 = 3.0;') or a bare variable ('q1 = a;') with a name of its own
         defs, top = sg.add_alias(rng, defs, top, 'q1')
